@@ -2272,8 +2272,21 @@ theorem Inv.resolveMut {T : List V} (src : Option Loc) : ∀ (steps : List Step)
     ∃ σ' r, Var.resolveMut true src σ l steps = (σ', r) ∧ Inv σ' T ∧ σ'.slots.length = σ.slots.length ∧
       ((∃ e, r = .error e ∧ (e = .sharedGrowth ∨ e = .badarg ∨ e = .srcMoved)) ∨ (∃ t, r = .ok t ∧ ValidLoc σ' t))
   | [], σ, l, inv, hl => ⟨σ, .ok l, rfl, inv, rfl, Or.inr ⟨l, rfl, hl⟩⟩
-  | s :: rest, σ, l, inv, hl => by
+  | s0 :: rest, σ, l, inv, hl => by
     simp only [Var.resolveMut]
+    cases hn : normStep σ l s0 with
+    | error e =>
+      have he : e = .badarg := by
+        unfold normStep at hn
+        split at hn
+        · split at hn
+          · cases hn; rfl
+          · cases hn
+        · cases hn
+      simp only []
+      exact ⟨σ, .error e, rfl, inv, rfl, Or.inl ⟨e, rfl, Or.inr (Or.inl he)⟩⟩
+    | ok s =>
+    simp only []
     by_cases hinv : invalidates σ l s src = true
     · simp only [hinv, Bool.true_and, if_true]
       exact ⟨σ, .error .srcMoved, rfl, inv, rfl, Or.inl ⟨_, rfl, Or.inr (Or.inr rfl)⟩⟩
@@ -2681,7 +2694,19 @@ theorem Inv.mkType {σ : State} {T : List V} (ty : Nat) (inv : Inv σ T) :
       (by intro _; simp [emptyBlock, SortedItems, AslProofs.Map.Sorted])
     exact ⟨_, _, rfl, this, ⟨_, rfl⟩, by intro id h; simp [handleOf] at h; omega,
       by intro id h; simp [handleOf] at h; subst h; exact ⟨_, getB_alloc_new _ _, rfl⟩⟩
-  left; simp only [h0, h1, h2, h3, h4, h5, if_false]
+  by_cases h6 : ty = tINT
+  · right; simp only [h0, h1, h2, h3, h4, h5, h6, if_true, if_false]
+    exact ⟨σ.heap, V.int 0, rfl, (Inv.scalar rfl).mpr inv, ⟨[], by simp⟩, (fun id h => nomatch h), (fun id h => nomatch h)⟩
+  by_cases h7 : ty = tNUMBER
+  · right; simp only [h0, h1, h2, h3, h4, h5, h6, h7, if_true, if_false]
+    exact ⟨σ.heap, V.num (Dy.ofInt 0), rfl, (Inv.scalar rfl).mpr inv, ⟨[], by simp⟩, (fun id h => nomatch h), (fun id h => nomatch h)⟩
+  by_cases h8 : ty = tFLOAT
+  · right; simp only [h0, h1, h2, h3, h4, h5, h6, h7, h8, if_true, if_false]
+    exact ⟨σ.heap, V.flt (Dy.ofInt 0), rfl, (Inv.scalar rfl).mpr inv, ⟨[], by simp⟩, (fun id h => nomatch h), (fun id h => nomatch h)⟩
+  by_cases h9 : ty = tBOOL
+  · right; simp only [h0, h1, h2, h3, h4, h5, h6, h7, h8, h9, if_true, if_false]
+    exact ⟨σ.heap, V.bool false, rfl, (Inv.scalar rfl).mpr inv, ⟨[], by simp⟩, (fun id h => nomatch h), (fun id h => nomatch h)⟩
+  left; simp only [h0, h1, h2, h3, h4, h5, h6, h7, h8, h9, if_false]
 
 theorem Inv.assignType {σ : State} {T : List V} {t : Loc} {ty : Nat} (inv : Inv σ T) (hl : ValidLoc σ t) :
     Var.assignType σ t ty = .error .badarg ∨
@@ -3530,6 +3555,7 @@ theorem Lit.toV_scalar (l : Lit) : handleOf l.toV = none := by
   | str s => simp only [Lit.toV, mkString]; split <;> rfl
   | nlong i => simp only [Lit.toV, mkNativeLong]; split <;> rfl
   | nulong u => simp only [Lit.toV, mkNativeULong]; split <;> rfl
+  | ulong u => rfl
 
 
 theorem BodyOK.of_ok {σ : State} {r : Except Err State}
@@ -3553,6 +3579,7 @@ theorem Inv.opBody {σ : State} {t : Loc} (sl : Option Loc) (op : Op) (inv : Inv
     | bool b => exact Or.inr (inv.assignScalar hl rfl)
     | nlong i => exact Or.inr (inv.assignScalar hl (Lit.toV_scalar (.nlong i)))
     | nulong u => exact Or.inr (inv.assignScalar hl (Lit.toV_scalar (.nulong u)))
+    | ulong u => exact Or.inr (inv.assignScalar hl rfl)
   | setType p ty =>
     rcases inv.assignType (ty := ty) hl with h | h
     · exact Or.inl ⟨_, h, ba⟩
@@ -3577,6 +3604,29 @@ theorem Inv.opBody {σ : State} {t : Loc} (sl : Option Loc) (op : Op) (inv : Inv
   | removeKey p k => exact Or.inr (inv.removeKeyV hl)
   | clear p => exact Or.inr (inv.clearV hl)
   | extend p q => exact inv.opExtend sl hl
+  | setSub p off =>
+    simp only [Var.opBody, Var.assignSuffix]
+    obtain ⟨old, hr, _⟩ := readLoc_valid hl []
+    rw [hr]
+    cases old with
+    | str s =>
+      simp only []
+      split
+      · exact Or.inr (inv.assignString hl)
+      · exact Or.inl ⟨_, rfl, ba⟩
+    | sstr s =>
+      simp only []
+      split
+      · exact Or.inr (inv.assignString hl)
+      · exact Or.inl ⟨_, rfl, ba⟩
+    | none => exact Or.inl ⟨_, rfl, ba⟩
+    | null => exact Or.inl ⟨_, rfl, ba⟩
+    | bool _ => exact Or.inl ⟨_, rfl, ba⟩
+    | int _ => exact Or.inl ⟨_, rfl, ba⟩
+    | num _ => exact Or.inl ⟨_, rfl, ba⟩
+    | flt _ => exact Or.inl ⟨_, rfl, ba⟩
+    | arr _ => exact Or.inl ⟨_, rfl, ba⟩
+    | obj _ => exact Or.inl ⟨_, rfl, ba⟩
   | clone k q => exact Or.inl ⟨_, rfl, ba⟩
   | copy k q => exact Or.inl ⟨_, rfl, ba⟩
   | drop k => exact Or.inl ⟨_, rfl, ba⟩
@@ -3787,6 +3837,7 @@ theorem Inv.rootOp {σ : State} (op : Op) (inv : Inv σ []) : BodyOK σ (Var.roo
   | removeKey p k => exact Or.inl ⟨_, rfl, ba⟩
   | clear p => exact Or.inl ⟨_, rfl, ba⟩
   | extend p q => exact Or.inl ⟨_, rfl, ba⟩
+  | setSub p off => exact Or.inl ⟨_, rfl, ba⟩
 
 /-- result of a statement: executed, or refused by one of the guards -/
 def Safe : Except Err Unit → Prop
